@@ -266,6 +266,11 @@ impl AsyncCopiaSync {
             }
         }
 
+        // A tokio file reports the failure of a write only at the next operation:
+        // without this the last write's error (disk full) is lost and the patch
+        // is reported as applied.
+        output.flush().await?;
+
         if self.config.verify_checksum {
             let computed = StrongHash::from_bytes(*hasher.finalize().as_bytes());
             if computed != delta.checksum {
